@@ -2,6 +2,7 @@ package props
 
 import (
 	"fmt"
+	"strings"
 
 	"github.com/openacid/low/sigbits"
 
@@ -26,7 +27,7 @@ func init() {
 			"node fan-outs of 255/256/257 children (a prefix key followed by every one-byte continuation) x maxSize around 256; thorough adds sets of 5000 generated keys with 40-byte common prefixes. Non-trivial+distinct = hash of (keys, maxSize) with >= 2 keys.",
 		Assumptions: []string{"non-empty strictly ascending key lists, maxSize >= 1"},
 		Flavours:    releaseAnd386,
-		Required: []string{"long-run/calls>=100000-per-function", "arguments-in-read-only-memory", "single-key-list", "maxSize=1", "maxSize>=len", "shard/single-key", "shard/full", "key-equals-common-prefix-of-successors", "split/restart-on-shorter-prefix",
+		Required: []string{"common-prefix>=65535-bytes", "long-run/calls>=100000-per-function", "arguments-in-read-only-memory", "single-key-list", "maxSize=1", "maxSize>=len", "shard/single-key", "shard/full", "key-equals-common-prefix-of-successors", "split/restart-on-shorter-prefix",
 			"first-byte-distinct", "bytes/nul", "bytes/>=0x80", "deep-common-prefix", "fan-out/257-children", "fan-out/256-children", "keys>=40000", "keys>2^18", "maxSize>=2^30", "same-buffer-refilled-in-place"},
 		Families: func(c *mon.Config) []mon.Family {
 			fams := []mon.Family{
@@ -40,6 +41,7 @@ func init() {
 				{Name: "keyzoo", Env: 6, N: c.Pick(10000, 2000000), Run: c17Zoo},
 				{Name: "fan-out", Env: 2, N: 3 * 4 * 3, Run: c17FanOut},
 				{Name: "many-keys", Env: 1, N: c.Pick(2, 40), Run: c17ManyKeys},
+				{Name: "very-long-common-prefix", N: c.Pick(4, 16), Run: c17VeryLong},
 				lrFamily(c17LongRun),
 			}
 			if c.Thorough() {
@@ -359,4 +361,25 @@ func c17ManyKeys(w *mon.W, idx int) {
 	}
 	w.Bucket("keys>=40000")
 	w.Sample(func() interface{} { return mon.D{"nkeys": len(keys), "maxSize": []int{1, 2, 300}} })
+}
+
+// c17VeryLong (round 12): a handful of keys that share 65 535 .. 131 077 bytes (common-prefix lengths that do not fit
+// 16 bits; a side array of uint16 prefix lengths was seeded).
+func c17VeryLong(w *mon.W, idx int) {
+	r := w.Rng
+	plen := []int{65535, 65536, 65537, 70000, 131077, 65536 + 255, 131072, 66000}[idx%8]
+	p := strings.Repeat(string(rune('a'+idx%20)), plen)
+	keys := []string{p, p + "a", p + "aa", p + "ab", p + "b", p + "ba" + string(gen.ZooBytes(r, 3)), p + "c"}
+	if idx%2 == 1 {
+		keys = append([]string{p[:plen-70000/2], p[:plen-1]}, keys...)
+	}
+	keys = gen.SortedUnique(keys)
+	for _, ms := range []int{1, 2, 3, 4, len(keys)} {
+		if !c17Check(w, keys, ms) {
+			return
+		}
+		w.Tick()
+	}
+	w.Bucket("common-prefix>=65535-bytes")
+	w.Sample(func() interface{} { return mon.D{"nkeys": len(keys), "common_prefix_bytes": plen} })
 }
